@@ -329,7 +329,7 @@ def build_variant(tag, flags, link):
     if bad:
         shutil.rmtree(d, ignore_errors=True)
         raise common.BuildError("\n".join(r.stdout for r in bad))
-    r = common.sh(["clang-14"] + link + ["-o", exe + ".tmp"] + [os.path.join(d, s + ".o") for s in common.SRC] + [os.path.join(d, "lvh.o")])
+    r = common.sh(["clang-14"] + link + ["-Wl,--wrap=fopen", "-o", exe + ".tmp"] + [os.path.join(d, s + ".o") for s in common.SRC] + [os.path.join(d, "lvh.o")])
     if r.returncode != 0:
         shutil.rmtree(d, ignore_errors=True)
         raise common.BuildError(r.stdout)
@@ -379,13 +379,13 @@ def run_msan(exe, files, script, timeout=60):
     frame, path = "?", "?"
     for fm in common.FRAME_RE.finditer(p.stderr):
         if "/liblouis/" in fm.group(2) or fm.group(2).endswith("lvh.c"):
-            frame, path = fm.group(1), os.path.basename(fm.group(2)) + ":" + fm.group(3)
+            frame, path = fm.group(1), os.path.basename(fm.group(2)) + ":" + (fm.group(3) or "?")
             break
     # the opcode whose code was running: nearest `case CTO_xxx:` above the compileRule frame (stable under line shifts,
     # and meaningful for byte mutants, where the mutated line is not known)
     case = frame
     for fm in common.FRAME_RE.finditer(p.stderr.split("Uninitialized value was created")[0]):
-        if fm.group(1) == "compileRule":
+        if fm.group(1) == "compileRule" and fm.group(3):
             try:
                 snapf = os.path.join(os.path.dirname(exe), "liblouis", os.path.basename(fm.group(2)))
                 src = open(snapf, encoding="utf-8", errors="replace").read().split("\n")
@@ -398,7 +398,8 @@ def run_msan(exe, files, script, timeout=60):
                 pass
             break
     om = MSAN_ORIGIN.search(p.stderr)
-    origin = ("%s.%s" % (om.group(2), om.group(1)) if om and om.group(1) else ("heap" if om else "?"))
+    # clang numbers same-named locals of different scopes (ptn_before374): drop the number
+    origin = ("%s.%s" % (om.group(2), re.sub(r"\d+$", "", om.group(1))) if om and om.group(1) else ("heap" if om else "?"))
     nout = len([l for l in p.stdout.split("\n") if l])
     return {"kind": "msan:" + m.group(1), "frame": frame, "at": path, "origin": origin, "case": case, "op_index": nout,
             "stderr_tail": p.stderr[:2500]}
@@ -523,9 +524,9 @@ def run(tier):
         keep = [m for m in ms if m.label in ("kitchen-sink",) and m.kind not in ("nul", "ff", "fe", "bslash", "lead", "cr", "num", "long")]
         rest = [m for m in ms if m not in keep]
         rng.shuffle(rest)
-        ms = keep + rest[:2500]
-    nb = 300 if tier == "quick" else 20000
-    ng = 300 if tier == "quick" else 8000
+        ms = keep + rest[:800]
+    nb = 100 if tier == "quick" else 20000
+    ng = 190 if tier == "quick" else 8000
     ms += byte_mutants(rng, nb)
     ms += grammar_mutants(rng, ng)
     ms = cms + ms
@@ -676,6 +677,6 @@ def run(tier):
                      "includes; %d grammar mutants (%d hand-written out-of-range lines + random splices) in generated tables; each mutant: "
                      "G translate, CHK M, GET M, probes, G again, CHK H + probes, FREE under ASan+UBSan+LSan, then CHK M + probes in a "
                      "fresh process; non-trivial = distinct (base, opcode, corruption, outcome)"
-                     % (len(bases), " (quick tier: seeded sample of 2500 + all structural kinds on the kitchen sink)" if tier == "quick" else "",
+                     % (len(bases), " (quick tier: seeded sample of 800 + all structural kinds on the kitchen sink)" if tier == "quick" else "",
                         nb, ng, len(BAD_LINES)))
     return v.finish()
